@@ -133,6 +133,10 @@ impl<'a> Run<'a> {
         let post = self.post();
         self.out.emit(&json!({"a": "scan", "client": false, "from": self.w.rel(from), "n": limit, "res": c, "err": e, "post": post}));
         self.aborted |= c == "panic";
+        // VERIF_SUGGEST=1 (C15): ask the wallet what it suggests after every scan of a random history
+        if !self.aborted && std::env::var("VERIF_SUGGEST").map(|v| v == "1").unwrap_or(false) {
+            self.suggest();
+        }
         c == "ok"
     }
 
